@@ -49,6 +49,7 @@ type Plan struct {
 const tokensPerPool = 120
 
 type poolMocks struct {
+	wantShots int64 // requests this pool fires when it runs to its end (−1: not known)
 	prov       *vkit.MockProvider
 	aggr       *vkit.MockAggregator
 	plan       *vkit.GunPlan
@@ -66,7 +67,23 @@ func buildPool(p Plan, idx int, marker error) (engine.InstancePoolConfig, *poolM
 	us := p.ShotUs
 	pm.plan.ShotDur = func(inst, shot, ammo int) time.Duration { return time.Duration(us) * time.Microsecond }
 	longNeighbour := !fault && p.Pools > 1 && p.Component != "none" && p.Component != "warmup-ok"
+	pm.wantShots = int64(tokensPerPool)
+	if p.PerInstance {
+		pm.wantShots = int64(p.Instances * (tokensPerPool / p.Instances))
+	}
+	shortNeighbour := false
+	if longNeighbour && p.Rep%10 == 9 {
+		// in the same-label plans the healthy neighbours are short instead (six requests at once):
+		// they are through, with success, before the faulty pool fails
+		longNeighbour, shortNeighbour = false, true
+		pm.prov.Items = 6
+		pm.wantShots = 6
+		if p.PerInstance {
+			pm.wantShots = int64(min(6, 6*p.Instances))
+		}
+	}
 	if longNeighbour {
+		pm.wantShots = -1
 		// healthy neighbours keep running long enough (3 s) to still be busy when the fault happens
 		pm.prov.Items = -1
 	}
@@ -155,6 +172,9 @@ func buildPool(p Plan, idx int, marker error) (engine.InstancePoolConfig, *poolM
 			if longNeighbour {
 				return schedule.NewConst(5000, 3*time.Second)
 			}
+			if shortNeighbour {
+				return schedule.NewOnce(6)
+			}
 			if p.PerInstance {
 				return schedule.NewConst(float64(tokensPerPool/p.Instances)*50, 20*time.Millisecond)
 			}
@@ -171,7 +191,12 @@ func buildPool(p Plan, idx int, marker error) (engine.InstancePoolConfig, *poolM
 	// newSched is called from one goroutine at a time by the engine (start loop), except
 	// per-instance mode where instances are created concurrently: guard with a mutex.
 	guarded := lockFactory(newSched)
-	cfg := engine.InstancePoolConfig{ID: fmt.Sprintf("pool%d", idx), Provider: pm.prov, Aggregator: pm.aggr, NewGun: pm.plan.NewGun,
+	id := fmt.Sprintf("pool%d", idx)
+	if p.Pools > 1 && p.Rep%10 == 9 {
+		// pool ids are labels that nothing requires to differ: every pool of this plan bears the same one
+		id = "same-label"
+	}
+	cfg := engine.InstancePoolConfig{ID: id, Provider: pm.prov, Aggregator: pm.aggr, NewGun: pm.plan.NewGun,
 		RPSPerInstance: p.PerInstance, NewRPSSchedule: guarded, StartupSchedule: schedule.NewOnce(int64(p.Instances)), DiscardOverflow: true}
 	return cfg, pm
 }
@@ -303,6 +328,15 @@ func runPlan(res *vkit.Result, p Plan) {
 	default:
 		if outcome != "nil" {
 			fail("outcome", "no fault fired but run returned %v", err)
+		}
+	}
+	if outcome == "nil" && !cancelled {
+		// success means that every pool ran out of ammo or schedule: each pool's requests were all fired
+		for i, pm := range pms {
+			want := pm.wantShots
+			if got := pm.plan.ShotCount(); want >= 0 && got != want {
+				fail("success-with-unfinished-pool", "Engine.Run returned nil although pool %d fired %d of its %d requests (fault fired: %v)", i, got, want, fired)
+			}
 		}
 	}
 	res.Count("outcome_"+outcome, 1)
